@@ -27,8 +27,8 @@ from . import rcdata
 
 PROP = "C13"
 TIERS = {
-    "quick": {"runs": 3000, "wall": 75, "chunk": 30},
-    "thorough": {"runs": 200000, "wall": 840, "chunk": 60},
+    "quick": {"runs": 9000, "wall": 75, "chunk": 50},
+    "thorough": {"runs": 280000, "wall": 840, "chunk": 200},
 }
 STEP_CAP = 500000
 SHRINK_BUDGET = 250
